@@ -412,3 +412,21 @@ fn replay(_sub: &str, case: &Json) -> Option<CaseResult> {
     let mv: MV = serde_json::from_value(case.get("value")?.clone()).ok()?;
     Some(check_value(&mv))
 }
+
+/// libFuzzer entry: one generated value.
+pub fn fuzz(f: &mut FuzzIn) -> Option<CaseResult> {
+    let c = ValueCfg::default_dialect(8, 120);
+    if f.mode % 8 >= 5 {
+        // byte-decoded value: libFuzzer's mutations change one node at a time
+        return Some(check_value(&f.mv(0, c, 5)));
+    }
+    let s = match f.mode % 8 {
+        0 | 1 => g_value(c),
+        2 => g_atom(c),
+        3 => g_deep(c, 60),
+        4 => g_wide(c, 200),
+        _ => prop_oneof![g_float().prop_map(MV::F), g_int().prop_map(MV::int), g_ident(IdentRules::default()).prop_map(MV::Sym), g_ident(IdentRules::default()).prop_map(MV::Kw)].boxed(),
+    };
+    let v = f.draw(&s)?;
+    Some(check_value(&v))
+}
